@@ -307,7 +307,12 @@ impl<C: NtpClock> KalmanClockController<C> {
                 .algo_config
                 .slew_maximum_frequency_offset
                 .min(change.abs() / self.algo_config.slew_minimum_duration);
-            let duration = Duration::from_secs_f64(change.abs() / freq);
+            let Ok(duration) = Duration::try_from_secs_f64(change.abs() / freq) else {
+                // The requested change is zero (or so small that the slew frequency
+                // underflows), so there is nothing to slew for and the slew duration
+                // is not a number. Only correct the frequency.
+                return self.change_desired_frequency(0.0, freq_delta);
+            };
             debug!(
                 "Slewing by {}ms over {}s",
                 change * 1e3,
